@@ -145,6 +145,8 @@ type Machine struct {
 	varCache   map[int][]int
 	layouts    map[*ssa.Function]map[ssa.Value]int
 	varByID    map[int]*sym.Term
+	varUB      map[int]uint64
+	varLB      map[int]uint64
 	qcache     map[string]bool
 	acache     map[string]smt.Result
 	sumMemo    map[string]*summary
@@ -225,6 +227,7 @@ func (m *Machine) goPanic(msg string) {
 func (m *Machine) RunPath(h *ssa.Function, prefix []int) (res PathResult, pending [][]int) {
 	m.pc = m.pc[:0]
 	m.pcSet = map[int]bool{}
+	m.varUB, m.varLB = map[int]uint64{}, map[int]uint64{}
 	m.trace = append([]int(nil), prefix...)
 	m.pos = 0
 	m.pending = nil
@@ -357,6 +360,84 @@ func (m *Machine) addPC(t *sym.Term) {
 	}
 	m.pcSet[t.ID] = true
 	m.pc = append(m.pc, t)
+	m.noteBound(t)
+}
+
+// noteBound records interval facts var <= k / var >= k stated by a conjunct.
+func (m *Machine) noteBound(t *sym.Term) {
+	neg := false
+	if t.Op == sym.OpNot {
+		neg = true
+		t = t.Args[0]
+	}
+	if t.Op != sym.OpUle && t.Op != sym.OpUlt {
+		return
+	}
+	a, b := t.Args[0], t.Args[1]
+	strict := t.Op == sym.OpUlt
+	switch {
+	case a.Op == sym.OpVar && b.IsConst(): // a <= k, a < k ; negated: a > k, a >= k
+		k := b.Val
+		if !neg {
+			if strict {
+				if k == 0 {
+					return
+				}
+				k--
+			}
+			if old, ok := m.varUB[a.ID]; !ok || k < old {
+				m.varUB[a.ID] = k
+			}
+		} else {
+			if !strict {
+				k++
+			}
+			if old, ok := m.varLB[a.ID]; !ok || k > old {
+				m.varLB[a.ID] = k
+			}
+		}
+	case b.Op == sym.OpVar && a.IsConst(): // k <= b, k < b ; negated: b < k, b <= k
+		k := a.Val
+		if !neg {
+			if strict {
+				k++
+			}
+			if old, ok := m.varLB[b.ID]; !ok || k > old {
+				m.varLB[b.ID] = k
+			}
+		} else {
+			if !strict {
+				if k == 0 {
+					return
+				}
+				k--
+			}
+			if old, ok := m.varUB[b.ID]; !ok || k < old {
+				m.varUB[b.ID] = k
+			}
+		}
+	}
+}
+
+// intervalFalse: the recorded bounds alone refute var == k.
+func (m *Machine) intervalRefutesEq(t *sym.Term) bool {
+	if t.Op != sym.OpEq {
+		return false
+	}
+	a, b := t.Args[0], t.Args[1]
+	if a.Op != sym.OpVar {
+		a, b = b, a
+	}
+	if a.Op != sym.OpVar || !b.IsConst() {
+		return false
+	}
+	if ub, ok := m.varUB[a.ID]; ok && b.Val > ub {
+		return true
+	}
+	if lb, ok := m.varLB[a.ID]; ok && b.Val < lb {
+		return true
+	}
+	return false
 }
 
 func (m *Machine) implied(t *sym.Term) (known bool, val bool) {
@@ -368,6 +449,12 @@ func (m *Machine) implied(t *sym.Term) (known bool, val bool) {
 	}
 	if n := m.ctx.Not(t); m.pcSet[n.ID] {
 		return true, false
+	}
+	if m.intervalRefutesEq(t) {
+		return true, false
+	}
+	if t.Op == sym.OpNot && m.intervalRefutesEq(t.Args[0]) {
+		return true, true
 	}
 	return false, false
 }
